@@ -33,6 +33,14 @@ func (e *Engine) registerIntrinsics() {
 		e.intr[pp+".ndAssume"] = intrNdAssume
 		e.intr[pp+".ndAssert"] = intrNdAssert
 		e.intr[pp+".ndCover"] = intrNdCover
+		e.intr[pp+".ndCoverSym"] = func(e *Engine, c *CallCtx) []Outcome {
+			outs := intrNdCover(e, c)
+			id, _ := c.Args[0].(VString).Concrete()
+			if cr := e.Covers[id]; cr != nil {
+				cr.SymOnly = true
+			}
+			return outs
+		}
 		e.intr[pp+".ndTry"] = intrNdTry
 		e.intr[pp+".ndOpt"] = intrNdOpt
 		e.intr[pp+".ndName"] = intrNdName
@@ -45,6 +53,51 @@ func (e *Engine) registerIntrinsics() {
 		}
 		e.intr[pp+".ndBytesEqual"] = func(e *Engine, c *CallCtx) []Outcome {
 			return one(c.St, e.bytesEq(c.St, c.Args[0].(VSlice), c.Args[1].(VSlice), 80))
+		}
+		e.intr[pp+".ndCopyBytes"] = func(e *Engine, c *CallCtx) []Outcome {
+			src := c.Args[0].(VSlice)
+			arr := ConstArr(0)
+			if src.Obj != 0 {
+				arr = c.St.Obj(src.Obj).Arr
+			}
+			id := c.St.Alloc(&Object{Kind: KBytes, Typ: types.Typ[types.Uint8], Arr: arr, Site: c.Site})
+			return one(c.St, VSlice{Nil: False, Obj: id, Off: src.Off, Len: src.Len, Cap: src.Len, Bytes: true})
+		}
+		e.intr[pp+".ndAllocMark"] = func(e *Engine, c *CallCtx) []Outcome {
+			return one(c.St, BVC(uint64(len(c.St.allocs)), 64))
+		}
+		e.intr[pp+".ndAllocSince"] = func(e *Engine, c *CallCtx) []Outcome {
+			m, ok := c.St.Conc(c.Args[0].(*Term))
+			if !ok {
+				unsupported("ndAllocSince mark must be concrete")
+			}
+			// saturating sum of the (non-negative) sizes requested since the mark
+			sum := I64(0)
+			big := False
+			lim := I64(1 << 50)
+			for _, a := range c.St.allocs[int(m.Uint()):] {
+				big = Or(big, Not(CmpBV(OULt, a, lim)))
+				sum = BinBV(OAdd, sum, Ite(CmpBV(OULt, a, lim), a, I64(0)))
+			}
+			return one(c.St, Ite(big, lim, sum))
+		}
+		e.intr[pp+".ndConcrete"] = func(e *Engine, c *CallCtx) []Outcome {
+			t := c.Args[0].(*Term)
+			if k, ok := c.St.Conc(t); ok {
+				return one(c.St, k)
+			}
+			vals := e.enumValues(c.St, t, 64, c.Site)
+			var outs []Outcome
+			for i, v := range vals {
+				st := c.St
+				if i < len(vals)-1 {
+					st = c.St.Fork()
+				}
+				st.Assume(Eq(t, v))
+				st.eqs[t.ID] = v
+				outs = append(outs, Outcome{St: st, Ret: v})
+			}
+			return outs
 		}
 		e.intr[pp+".ndSymbolic"] = func(e *Engine, c *CallCtx) []Outcome { return one(c.St, True) }
 		e.intr[pp+".verifReg"] = func(e *Engine, c *CallCtx) []Outcome { return one(c.St, True) }
@@ -185,6 +238,33 @@ func intrNdTry(e *Engine, c *CallCtx) []Outcome {
 		}
 	}
 	return res
+}
+
+// enumValues lists every feasible value of t on this path (at most limit, else unsupported).
+func (e *Engine) enumValues(st *State, t *Term, limit int, site string) []*Term {
+	var vals, blocks []*Term
+	for len(vals) <= limit {
+		as := append(append([]*Term(nil), st.pc...), blocks...)
+		as = append(as, e.exclude...)
+		r := e.solver.Check(as)
+		if r == Unsat {
+			break
+		}
+		if r == Unknown {
+			unsupported("solver unknown while enumerating values at %s", site)
+		}
+		vs, err := e.solver.Values([]*Term{t})
+		if err != nil {
+			unsupported("model read failed while enumerating values at %s", site)
+		}
+		c := BVC(vs[0], t.S.W)
+		vals = append(vals, c)
+		blocks = append(blocks, Not(Eq(t, c)))
+	}
+	if len(vals) > limit {
+		unsupported("more than %d feasible values at %s", limit, site)
+	}
+	return vals
 }
 
 // ---------- errors / fmt ----------
@@ -523,29 +603,33 @@ func (e *Engine) bytesEq(st *State, a, b VSlice, bound int) *Term {
 	} else if c, ok := st.Conc(b.Len); ok {
 		n = int(c.Int())
 	}
-	conds := []*Term{Eq(a.Len, b.Len)}
-	if a.Obj == b.Obj && a.Off == b.Off {
-		return And(conds...)
+	lenEq := Eq(a.Len, b.Len)
+	if a.Obj == 0 || b.Obj == 0 {
+		return And(Eq(a.Len, I64(0)), Eq(b.Len, I64(0)))
+	}
+	aa, ba := st.Obj(a.Obj).Arr, st.Obj(b.Obj).Arr
+	// same backing store at the same offset: equal whatever the length
+	sameWindow := False
+	if aa == ba {
+		sameWindow = Eq(a.Off, b.Off)
+		if sameWindow.IsTrue() {
+			return lenEq
+		}
 	}
 	lim := n
+	var conds []*Term
 	if n < 0 {
 		lim = bound
-		conds = append(conds, CmpBV(OSLe, a.Len, I64(int64(bound))))
+		conds = append(conds, Not(CmpBV(OSLt, I64(int64(bound)), a.Len)))
 	}
-	if lim > 0 {
-		if a.Obj == 0 || b.Obj == 0 {
-			return And(Eq(a.Len, I64(0)), Eq(b.Len, I64(0)))
+	for i := 0; i < lim; i++ {
+		eq := Eq(Select(aa, BinBV(OAdd, a.Off, I64(int64(i)))), Select(ba, BinBV(OAdd, b.Off, I64(int64(i)))))
+		if n < 0 {
+			eq = Or(Not(CmpBV(OSLt, I64(int64(i)), a.Len)), eq)
 		}
-		aa, ba := st.Obj(a.Obj).Arr, st.Obj(b.Obj).Arr
-		for i := 0; i < lim; i++ {
-			eq := Eq(Select(aa, BinBV(OAdd, a.Off, I64(int64(i)))), Select(ba, BinBV(OAdd, b.Off, I64(int64(i)))))
-			if n < 0 {
-				eq = Or(CmpBV(OSLe, a.Len, I64(int64(i))), eq)
-			}
-			conds = append(conds, eq)
-		}
+		conds = append(conds, eq)
 	}
-	return And(conds...)
+	return And(lenEq, Or(sameWindow, And(conds...)))
 }
 
 // ---------- regexp: Go's compiled Pike program run symbolically ----------
